@@ -47,7 +47,7 @@ def base_diagram():
              'fph': 'is held by', 'pph': 'holds', 'keys': [['A_Id', 'Id']]},
             {'k': 'simple', 'num': 2, 'comp': 'C1', 'form': 'A', 'part': 'A', 'fm': 0, 'fc': 1, 'pm': 0, 'pc': 1,
              'fph': 'succeeds', 'pph': 'precedes', 'keys': [['Prev_Id', 'Id']]},
-            {'k': 'linked', 'num': 3, 'comp': 'C1', 'one': 'A', 'oth': 'B', 'link': 'L', 'om': 0, 'oc': 1, 'oph': 'a side',
+            {'k': 'linked', 'num': 3, 'comp': 'C1', 'one': 'A', 'oth': 'B', 'link': 'L', 'lm': 1, 'om': 0, 'oc': 1, 'oph': 'a side',
              'tm': 1, 'tc': 0, 'tph': 'b side', 'okeys': [['A_Id', 'Id']], 'tkeys': [['B_Id', 'Id']]},
             {'k': 'subsup', 'num': 4, 'comp': 'C1', 'sup': 'S', 'subs': ['T', 'U'], 'keys': {'T': [['Id', 'Id']], 'U': [['Super_Id', 'Id']]}},
             {'k': 'simple', 'num': 5, 'comp': 'C2', 'form': 'X', 'part': 'X', 'fm': 1, 'fc': 1, 'pm': 0, 'pc': 1,
@@ -78,7 +78,7 @@ def _attr_sites(d):
     return [(ci, ai) for ci, c in enumerate(d['classes']) for ai, a in enumerate(c['attrs'])]
 
 
-def edit(d, rnd):
+def edit(d, rnd, derived_keys=False):
     d = copy.deepcopy(d)
     kind = rnd.choice(['rename_attr', 'retype_attr', 'reorder_attrs', 'add_attr', 'toggle', 'toggle', 'phrase', 'move_class',
                        'add_enumerator', 'reorder_enumerators', 'add_udt', 'retype_udt', 'to_derived', 'swap_form_part',
@@ -132,10 +132,10 @@ def edit(d, rnd):
         if r['k'] == 'simple':
             f = rnd.choice(['fm', 'fc', 'pm', 'pc'])
         elif r['k'] == 'linked':
-            f = rnd.choice(['om', 'oc', 'tm', 'tc'])
+            f = rnd.choice(['om', 'oc', 'tm', 'tc', 'lm'])
         else:
             return None, kind
-        r[f] = 1 - r[f]
+        r[f] = 1 - r.get(f, 0)
         return d, kind
     if kind == 'phrase':
         r = rnd.choice([x for x in d['rels'] if x['k'] != 'subsup'])
@@ -194,8 +194,12 @@ def edit(d, rnd):
         d['udts'][k]['base'] = rnd.choice(earlier)
         return d, kind
     if kind == 'to_derived':
+        # (an attribute that relationships refer to becomes derived only where derived attributes are always extracted)
         sites = [(ci, ai) for ci, ai in _attr_sites(d) if d['classes'][ci]['attrs'][ai]['k'] == 'base'
-                 and not _is_referred(d, d['classes'][ci]['kl'], d['classes'][ci]['attrs'][ai]['n'])]
+                 and (derived_keys or not _is_referred(d, d['classes'][ci]['kl'], d['classes'][ci]['attrs'][ai]['n']))]
+        if derived_keys and rnd.random() < 0.6:
+            pref = [(ci, ai) for ci, ai in sites if _is_referred(d, d['classes'][ci]['kl'], d['classes'][ci]['attrs'][ai]['n'])]
+            sites = pref or sites
         if not sites:
             return None, kind
         ci, ai = rnd.choice(sites)
